@@ -9,10 +9,10 @@ CONSTANTS
   CtorSet = "all"
   MaxOps = 5
   NKeys = 3
-  MaxBulk = 2
+  MaxBulk = 0
   History = FALSE
   Kinds = {"vec","vdq","hset","hmap","bset","bmap"}
-  Elems = {"i16","u64","String"}
+  Elems = {"u64"}
   Scripts <- ScriptsShapes
   MaxCap = 6
   HbBuckets = {1, 2, 4, 8}
